@@ -406,10 +406,14 @@ def solver_brackets(inv, ray):
     ext0 = math.atan2(V, U) - a          # extrema of g: ext0 + k pi
     out = []
     guard = 0
+    unsure = False      # a bracket end had an offset within rounding of zero: the sequence from there
+                        # on (pi or pi/i wide?) cannot be reproduced with certainty
     while t_lower < inv.tmax and guard < 10000:
         guard += 1
         fl, fu = g(t_lower), g(t_upper)
         found = sgn(fl) != sgn(fu)
+        if abs(fl) <= 1e-9 * rb or abs(fu) <= 1e-9 * rb:
+            unsure = True
         # count the roots inside by monotone pieces
         k0 = math.ceil((t_lower - ext0) / PI)
         cuts = [t_lower]
@@ -427,7 +431,7 @@ def solver_brackets(inv, ray):
                 tiny = True
             if sgn(g0) * sgn(g1) < 0:
                 nroots += 1
-        out.append({"lo": t_lower, "hi": t_upper, "found": found, "n": nroots, "tiny": tiny})
+        out.append({"lo": t_lower, "hi": t_upper, "found": found, "n": nroots, "tiny": tiny or unsure})
         if found:
             t_lower = t_upper
             t_upper += PI
